@@ -7,6 +7,7 @@ package mcp
 import (
 	"context"
 	"fmt"
+	"net/http"
 	"slices"
 	"sort"
 	"strings"
@@ -38,17 +39,17 @@ func c18rOps() []c18rOp {
 	return ops
 }
 
-func c18rRun(t *testing.T, ops []c18rOp, hist []int) (out verifx.SearchResult) {
+func c18rRun(t *testing.T, ops []c18rOp, hist []int, transport string) (out verifx.SearchResult) {
 	defer func() {
 		if r := recover(); r != nil {
 			out = verifx.SearchResult{Bad: fmt.Sprintf("panic / bubble failure: %v", r), Sig: "c18 resources panic-or-leak"}
 		}
 	}()
-	synctest.Test(t, func(t *testing.T) { out = c18rInBubble(ops, hist) })
+	synctest.Test(t, func(t *testing.T) { out = c18rInBubble(ops, hist, transport) })
 	return out
 }
 
-func c18rInBubble(ops []c18rOp, hist []int) verifx.SearchResult {
+func c18rInBubble(ops []c18rOp, hist []int, transport string) verifx.SearchResult {
 	bad := func(sig, format string, a ...any) verifx.SearchResult {
 		return verifx.SearchResult{Bad: fmt.Sprintf(format, a...), Sig: "c18 resources " + sig}
 	}
@@ -65,16 +66,27 @@ func c18rInBubble(ops []c18rOp, hist []int) verifx.SearchResult {
 	versions := []string{"2025-06-18", "2025-06-18", "2026-07-28"}
 	got := make([][]string, 3) // URIs of the resources/updated notifications each client received
 	var sessions []*ClientSession
+	handlers := map[bool]*hxTransport{}
 	for i, v := range versions {
 		cl := NewClient(&Implementation{Name: fmt.Sprint("c", i), Version: "1"}, &ClientOptions{Logger: quietLogger,
 			ResourceUpdatedHandler: func(ctx context.Context, r *ResourceUpdatedNotificationRequest) {
 				got[i] = append(got[i], r.Params.URI)
 			}})
-		ct, st := NewInMemoryTransports()
-		if _, err := s.Connect(ctx, st, nil); err != nil {
-			return bad("setup", "%v", err)
+		var cs *ClientSession
+		var err error
+		if transport == "http" {
+			// one stateful handler for the legacy sessions, a stateless one for the 2026-07-28 session
+			if handlers[v >= "2026-07-28"] == nil {
+				handlers[v >= "2026-07-28"] = &hxTransport{Handler: NewStreamableHTTPHandler(func(*http.Request) *Server { return s }, &StreamableHTTPOptions{Stateless: v >= "2026-07-28", Logger: quietLogger})}
+			}
+			cs, err = cl.Connect(ctx, &StreamableClientTransport{Endpoint: "http://srv.test/mcp", HTTPClient: handlers[v >= "2026-07-28"].client(), MaxRetries: -1}, &ClientSessionOptions{ProtocolVersion: v})
+		} else {
+			ct, st := NewInMemoryTransports()
+			if _, err := s.Connect(ctx, st, nil); err != nil {
+				return bad("setup", "%v", err)
+			}
+			cs, err = cl.Connect(ctx, ct, &ClientSessionOptions{ProtocolVersion: v})
 		}
-		cs, err := cl.Connect(ctx, ct, &ClientSessionOptions{ProtocolVersion: v})
 		if err != nil {
 			return bad("setup", "%v", err)
 		}
@@ -192,7 +204,12 @@ func TestVerifC18Resources(t *testing.T) {
 	env.RunSearch(res, &verifx.Search{
 		Name: "resource-subscription-histories", NumOps: len(ops), OpName: func(i int) string { return ops[i].name },
 		MaxDepth: env.Pick(4, 6), ShallowDepth: env.Pick(2, 3),
-		Run: func(h []int) verifx.SearchResult { return c18rRun(t, ops, h) },
+		Run: func(h []int) verifx.SearchResult { return c18rRun(t, ops, h, "inmem") },
+	})
+	env.RunSearch(res, &verifx.Search{
+		Name: "resource-subscription-histories/http", NumOps: len(ops), OpName: func(i int) string { return ops[i].name },
+		MaxDepth: env.Pick(3, 5), ShallowDepth: env.Pick(2, 3),
+		Run: func(h []int) verifx.SearchResult { return c18rRun(t, ops, h, "http") },
 	})
 	env.Finish(res)
 }
